@@ -3,10 +3,10 @@
 (* TLAPS: in the design of the typed layer that the property asks for      *)
 (* (Typed.tla with NilCallbackOnForeign = FALSE, ForeignInList = FALSE),   *)
 (* for every set of own and foreign keys and every stream length: the      *)
-(* typed handler is never called with a nil object, every typed event and  *)
-(* every handler call is about an object of the own type.              *)
-(*  (The restriction *equalities* are checked *)
-(* by TLC within bounds; SelectSeq lemmas are not proved here.)             *)
+(* typed handler is never called with a nil object, and every typed event  *)
+(* and every handler call is about an object of the own type.  (The        *)
+(* restriction equalities are checked by TLC within bounds; SelectSeq      *)
+(* lemmas are not proved here.)                                             *)
 (***************************************************************************)
 EXTENDS Typed, TLAPS
 
